@@ -103,7 +103,7 @@ def register(prop):
          "(concurrently or later), forged suspect/dead/alive about the leaver (incarnation own-1..own+1) delivered inside the window opened by the two Leave yield sites; oracles: "
          "nil return => a self-signed dead message was handed to the transport by then; every peer that listed the leaver records it left (not dead) within the C05 budget and its log "
          "ends with leave; no resurrection on any node; the leaver never lists itself again; non-trivial = leaver was listed by a peer and Leave ran; " + FP,
-         assumptions=["GossipToTheDeadTime exceeds the run length in C08L (no reaping of the departed record: SWIM's retention window is not the no-resurrection guarantee)",
+         assumptions=["a peer that declares the leaver failed on its own evidence after the leaver's process has stopped (Shutdown following Leave) and before the departure reached it is not required to end at left: it no longer considered the node a member when the news arrived", "GossipToTheDeadTime exceeds the run length in C08L (no reaping of the departed record: SWIM's retention window is not the no-resurrection guarantee)",
                       "no crashes in C08L plans, so every listed peer is live"],
          extra={"grid_cells": 486})
 
